@@ -35,6 +35,19 @@ CLAIMED = {
              "NOT decided. Assumes std::vector move leaves the source empty and that users do not mutate the map through "
              "the non-const accessor.",
     ),
+    "C08": dict(
+        category="other",
+        design_ref="DESIGN.md section 3 / C08",
+        technique="static analysis: guard dominance, must-pass-through and pairing rules on the clang CFG; truth table of "
+                  "is_complete() compared with the formula fixed by the property text",
+        text="Decides the structural clauses: no datagram from an incomplete set (REASSEMBLED dominated by is_complete() "
+             "and the non-null payload test; is_complete() == last-seen AND counts-equal AND first-offset-0 on all 8 rows; "
+             "allocate_pdu rejects gaps), what the reassembled packet is made of (first fragment's header, payload "
+             "installed, offset/flags cleared, stream forgotten), unfragmented packets and incomplete streams untouched, "
+             "key = (id, src, dst), insertion/accounting/ordered-search/duplicate-test pairing.",
+        note="NOT decided: status sequences under arbitrary interleavings and duplication, byte identity of the "
+             "reassembled payload, overlapping fragments.",
+    ),
     "C09": dict(
         category="other",
         design_ref="DESIGN.md section 3 / C09",
